@@ -7,6 +7,7 @@ package main
 // port and two whole-store digests.
 
 import (
+	"encoding/json"
 	"fmt"
 	"math/big"
 	"strings"
@@ -639,7 +640,7 @@ func (s *pSuite) legacyChange() (paramproposal.ParamChange, string) {
 		var js, tr []string
 		if r.Intn(4) != 0 {
 			d := s.denom(edge / 3)
-			js = append(js, `"denom":"`+d+`"`)
+			js = append(js, `"denom":`+strJSON(d))
 			tr = append(tr, pSafe(d))
 		} else {
 			tr = append(tr, "-")
@@ -667,7 +668,7 @@ func (s *pSuite) legacyChange() (paramproposal.ParamChange, string) {
 				c.Amount = sdkmath.ZeroInt()
 			}
 			clean = append(clean, c)
-			js = append(js, `{"denom":"`+c.Denom+`","amount":`+intJSON(c.Amount)+`}`)
+			js = append(js, `{"denom":`+strJSON(c.Denom)+`,"amount":`+intJSON(c.Amount)+`}`)
 		}
 		tr := "coins"
 		for _, c := range clean {
@@ -687,7 +688,7 @@ func (s *pSuite) legacyChange() (paramproposal.ParamChange, string) {
 			return bad("inflation", "ParamStoreKeyMintDenom", `5`, `true`, `["a"]`)
 		}
 		d := s.denom(edge / 2)
-		return mk("inflation", "ParamStoreKeyMintDenom", `"`+d+`"`, "str~"+pSafe(d))
+		return mk("inflation", "ParamStoreKeyMintDenom", strJSON(d), "str~"+pSafe(d))
 	case 10, 11, 12:
 		if isBad {
 			return bad("inflation", "ParamStoreKeyExponentialCalculation", `"x"`, `{"a":"q"}`, `[]`, `{"r":true}`)
@@ -745,7 +746,7 @@ func (s *pSuite) legacyChange() (paramproposal.ParamChange, string) {
 		ch := s.channels()
 		var js []string
 		for _, c := range ch {
-			js = append(js, `"`+c+`"`)
+			js = append(js, strJSON(c))
 		}
 		tr := "strs"
 		for _, c := range ch {
@@ -852,4 +853,14 @@ func runParams(seed uint64, nOps int, outPath string) map[string]int {
 		}
 	}
 	return s.stat
+}
+
+// strJSON: a Go string as a JSON string literal (control characters such as the newline of a whitespace-padded
+// denomination escaped; a raw newline inside the quotes is not JSON at all and the value would not decode)
+func strJSON(v string) string {
+	b, err := json.Marshal(v)
+	if err != nil {
+		panic(err)
+	}
+	return string(b)
 }
